@@ -60,7 +60,7 @@ package alg
 // at the first unconsumed input byte.
 //@ pure func qflags(double bool) uint64 = ite(double, types.F_DOUBLE_UNQUOTE, 0)
 //@ pure func qlen(double bool) int = ite(double, 3, 1)
-//@ func Quote props C05,C06,C20,C12,C04
+//@ func Quote props C05,C06,C20,C12,C04,C03
 //@   modifies buf[_]
 //@   ensures base(result) == base(buf) || fresh(result)
 //@   ensures len(result) >= len(buf) + 2 * qlen(double)
@@ -83,14 +83,14 @@ package alg
 // F64toa / F32toa (used by the interpreting encoder only; the JIT calls the native
 // routine directly): buf ++ the native formatting of v, for every finite v including
 // both zeros (C12: same text as the JIT; C19/C03: "-0" for negative zero).
-//@ func F64toa props C12,C19,C06
+//@ func F64toa props C12,C19,C06,C03
 //@   requires !isNaN(v) && !isInf(v)
 //@   modifies buf[_]
 //@   ensures base(result) == base(buf) || fresh(result)
 //@   ensures len(result) > len(buf)
 //@   ensures forall j int :: (0 <= j && j < len(buf)) ==> result[j] == old(buf[j])
 //@   ensures subtxt(result, len(buf), len(result) - len(buf)) == native.f64Spec(v)
-//@ func F32toa props C12,C19,C06
+//@ func F32toa props C12,C19,C06,C03
 //@   requires !isNaN(v) && !isInf(v)
 //@   modifies buf[_]
 //@   ensures base(result) == base(buf) || fresh(result)
